@@ -250,6 +250,8 @@ func channelClose(c *Ctx) {
 	q.add("ONCE", "the close body runs under sync.Once", okd, "passed to c.close.Do", dos...)
 }
 
+func channelErrs(c *Ctx) { c.errPolarity("(*Channel).Get", "(*Channel).Commit") }
+
 func init() {
 	register(&Prop{
 		ID:        "C13",
@@ -259,6 +261,7 @@ func init() {
 		NotDecided: "linearizability as a statement over histories (each operation being one critical section of one mutex is decided; the real-time order is the mutex's); what is left in the source channel.",
 		Build: func(c *Ctx) []*an.Oblig {
 			channelRules(c)
+			channelErrs(c)
 			out := c.sel(func(o *an.Oblig) bool {
 				if isUndecided(o) || o.Rule == "ANCHOR" {
 					return true
